@@ -219,3 +219,29 @@ for _id, (_t, _l) in ROUND7.items():
         if _t:
             t = t + " + " + _t
         CLAIMED[_id] = (t, text + _l, note, ref)
+
+# rules added after seed round 8 (DESIGN 10.12)
+ROUND8 = {
+ "C01": ("no-capacity rule for candidate lists, similarity-only admission rule", " R01.9: no append to a list of candidates under a test of its length against a constant, no cut to a constant length. R01.10: a corpus document is admitted to the detailed comparison by tests of its token similarity only. Shared R06.5."),
+ "C02": ("", " Shared R08.3."),
+ "C03": ("", " Shared R08.4/R08.5/R08.8."),
+ "C05": ("path rules on white space over all enumerated iterations of the rune loop", " R05.8: on a path where the rune is white space it is compared with line feed and carriage return only. R05.9: no notice pattern is tested behind a condition on the line number. R05.10: while a word is open only white space ends it."),
+ "C06": ("dominating-fact rule for the trailing-hyphen test, same-object rule across refills", " R06.17: the trailing-hyphen test stands behind `buffer not empty` only. R06.3 also requires the dictionaries to be the same objects in every window."),
+ "C10": ("progress argument over enumerated loop paths", " R10.3: every way round the rune loop ends behind the decoded rune or pushes it back with the word buffer emptied. Shared R08.3."),
+ "C11": ("flag-independence rule for the punctuation table", " R11.13: what the punctuation table does to a rune does not depend on the normalize flag. Shared R01.9 and the effect analysis of Normalize (R04.1)."),
+ "C12": ("skip-not-fail rule for shallow paths", " R12.12: a path with fewer than three segments is skipped, not an error."),
+ "C13": ("", " R13.3 also covers the MinDiffRatio pre-filter. R13.13: AddPrecomputedValue does not reach normalize."),
+ "C14": ("contradiction rule on locked and bare accesses, no-branch-on-shared-capture rule", " R14.13: a field written under its struct's own mutex is never accessed without it. R14.14: no function that can run in a spawned goroutine branches on a captured variable that such functions assign. R14.1 accepts a helper whose every call site holds the lock."),
+ "C15": ("", " R15.3 also reports unsummarised calls handed package-level memory. R15.16: the license file reader is handed the list element itself."),
+ "C16": ("", " Shared R13.5."),
+ "C17": ("", " R17.10: the unknown text is sliced with the bounds TargetRange returned."),
+ "C18": ("", " R18.19: the read primitive advances the line number under `r == line feed` only. R18.20: in the loop that appends comments to a chunk the loop-carried comment becomes the appended one. R18.21: NestedComments is true for Swift, Kotlin, Dart and Haskell (D51)."),
+ "C19": ("results-provenance rule for the printing loop, error-tests-only rule in front of Match", " R19.16: the loop that prints ranges over what GetResults returned. R19.17: the library's Match is called behind error tests only. R19.5 also decides a `run() error` main."),
+ "C20": ("", " R20.2: Push reports the new element's index under the nil guard only."),
+}
+for _id, (_t, _l) in ROUND8.items():
+    if _id in CLAIMED:
+        t, text, note, ref = CLAIMED[_id]
+        if _t:
+            t = t + " + " + _t
+        CLAIMED[_id] = (t, text + _l, note, ref)
